@@ -259,8 +259,13 @@ pub fn record_samples(output: &str) {
         }
         sets.push((from, to));
     }
-    for (from, to) in sets {
-        let c = Constraints::new(rad6(&from), rad6(&to), BY_PREV);
+    for (n, (from, to)) in sets.into_iter().enumerate() {
+        // half of the constraint sets reach their limits through update_range (from other, unrelated limits)
+        let c = if n % 2 == 0 { Constraints::new(rad6(&from), rad6(&to), BY_PREV) } else {
+            let mut c = Constraints::new([2.0, -1.0, 0.5, 0.1, -3.0, 1.0], [2.5, 1.0, 0.6, -0.1, 3.0, 1.0], BY_PREV);
+            c.update_range(rad6(&from), rad6(&to));
+            c
+        };
         for _ in 0..draws {
             match guarded(|| c.random_angles()) {
                 Some(q) => {
